@@ -35,6 +35,19 @@ func builtinArrayToString(call FunctionCall) Value {
 	return builtinObjectToString(call)
 }
 
+// maxDenseLength is the longest list of values or strings that a built-in allocates on the
+// strength of a length property. A length is only a number ({length: 4294967295}, new
+// Array(4294967295)): without a limit slice, map, join and the others ask the Go runtime for up
+// to 100 GB, and an allocation that fails is not a panic but the end of the process. An array
+// that really holds this many elements would need gigabytes long before.
+const maxDenseLength = 1 << 24
+
+func (rt *runtime) checkDenseLength(length int64) {
+	if length > maxDenseLength {
+		panic(rt.panicRangeError("Invalid array length"))
+	}
+}
+
 func builtinArrayToLocaleString(call FunctionCall) Value {
 	separator := ","
 	thisObject := call.thisObject()
@@ -42,6 +55,7 @@ func builtinArrayToLocaleString(call FunctionCall) Value {
 	if length == 0 {
 		return stringValue("")
 	}
+	call.runtime.checkDenseLength(length)
 	stringList := make([]string, 0, length)
 	for index := range length {
 		value := thisObject.get(arrayIndexToString(index))
@@ -71,6 +85,7 @@ func builtinArrayConcat(call FunctionCall) Value {
 			obj := item.object()
 			if isArray(obj) {
 				length := obj.get(propertyLength).number().int64
+				call.runtime.checkDenseLength(int64(len(valueArray)) + length)
 				for index := range length {
 					name := strconv.FormatInt(index, 10)
 					if obj.hasProperty(name) {
@@ -150,6 +165,7 @@ func builtinArrayJoin(call FunctionCall) Value {
 	if length == 0 {
 		return stringValue("")
 	}
+	call.runtime.checkDenseLength(length)
 	stringList := make([]string, 0, length)
 	for index := range length {
 		value := thisObject.get(arrayIndexToString(index))
@@ -176,6 +192,7 @@ func builtinArraySplice(call FunctionCall) Value {
 		// No start either: nothing is removed.
 		deleteCount = 0
 	}
+	call.runtime.checkDenseLength(deleteCount)
 	valueArray := make([]Value, deleteCount)
 
 	for index := range deleteCount {
@@ -260,6 +277,7 @@ func builtinArraySlice(call FunctionCall) Value {
 		return objectValue(call.runtime.newArray(0))
 	}
 	sliceLength := end - start
+	call.runtime.checkDenseLength(sliceLength)
 	sliceValueArray := make([]Value, sliceLength)
 
 	for index := range sliceLength {
@@ -594,6 +612,7 @@ func builtinArrayMap(call FunctionCall) Value {
 	length := int64(toUint32(thisObject.get(propertyLength)))
 	if iterator := call.Argument(0); iterator.isCallable() {
 		callThis := call.Argument(1)
+		call.runtime.checkDenseLength(length)
 		values := make([]Value, length)
 		for index := range length {
 			if key := arrayIndexToString(index); thisObject.hasProperty(key) {
